@@ -723,6 +723,7 @@ func run(cx *lib.Ctx) {
 		bodyCase(cx, R.Fork(), i)
 	}
 	directedBlockSpecs(cx)
+	directedExprs(cx)
 	share := func(prefix string) {
 		d := res.Distribution
 		t := d[prefix+"same-result"] + d[prefix+"differ-marked"] + d[prefix+"differ-mark-lost"] + d[prefix+"skipped-error"]
